@@ -268,6 +268,45 @@ func runC19(w *World) *Result {
 			sort.Strings(problems)
 			r.Bad("R-C19-write", "write:path", w.Pos(m.call.Pos()), "output path is not <out>/<input base without its extension>.<target extension>: "+strings.Join(problems, "; "))
 		}
+		// the input is never overwritten: before the write a test "output is the input file"
+		// (os.SameFile on both files, or a comparison of the two paths) ends the command
+		notInput := false
+		for _, blk := range fnMain(w).Blocks {
+			cnd, neg := condOf(blk)
+			if cnd == nil || !(blk.Dominates(m.call.Block()) || reachableFromWithout(blk, nil, m.call.Block())) {
+				continue
+			}
+			var calls []ssa.Value
+			collectCalls(cnd, &calls, 0)
+			same := false
+			for _, cv := range calls {
+				if cc, ok := cv.(*ssa.Call); ok && calleeName(cc) == "os.SameFile" {
+					same = true
+				}
+			}
+			if ph, ok := cnd.(*ssa.Phi); ok {
+				for _, e := range ph.Edges {
+					if cc, ok := e.(*ssa.Call); ok && calleeName(cc) == "os.SameFile" {
+						same = true
+					}
+				}
+			}
+			if !same {
+				continue
+			}
+			sameB := blk.Succs[0]
+			if neg {
+				sameB = blk.Succs[1]
+			}
+			if leadsToExit(sameB) {
+				notInput = true
+			}
+		}
+		if notInput {
+			r.Ok("R-C19-write", "write:not-input", w.Pos(m.call.Pos()), "the write is preceded by a same-file test of output and input that ends the command")
+		} else {
+			r.Bad("R-C19-write", "write:not-input", w.Pos(m.call.Pos()), "nothing prevents the output path from being the input file: tsh -i D/prog.sh -o D -t bash replaces its input with the script and exits 0")
+		}
 		// domination by the error check of this Transpile call
 		guarded := false
 		for _, ref := range *tr.call.Referrers() {
@@ -330,6 +369,20 @@ func runC19(w *World) *Result {
 					}
 				}
 				checked := false
+				// a read-only probe of the file system (does the file exist, is it the same file)
+				// is not an operation that can "fail": its error is an answer. It counts as handled
+				// when the error is looked at (compared with nil) at all.
+				if (callee == "os.Stat" || callee == "os.Lstat") && errVal != nil && errVal.Referrers() != nil {
+					for _, ref := range *errVal.Referrers() {
+						if bo, ok := ref.(*ssa.BinOp); ok && (bo.Op == token.NEQ || bo.Op == token.EQL) {
+							checked = true
+						}
+					}
+					if checked {
+						r.Ok("R-C19-errors", key, w.Pos(c.Pos()), "file-system probe: its error is tested and used as the answer")
+						continue
+					}
+				}
 				if errVal != nil && errVal.Referrers() != nil {
 					for _, ref := range *errVal.Referrers() {
 						bo, ok := ref.(*ssa.BinOp)
@@ -601,4 +654,13 @@ func c19Args(w *World, r *Result) {
 			}
 		}
 	}
+}
+
+func fnMain(w *World) *ssa.Function {
+	for _, fn := range w.Funcs("main") {
+		if fn.Name() == "main" {
+			return fn
+		}
+	}
+	return &ssa.Function{}
 }
